@@ -463,7 +463,9 @@ def tseitin_stage(ctx, only=None):
             extra = []
             fx = form_sexp(f, names, extra)
             lines.append(sexp.dumps(["tseitin", fx, sorted(set(extra)), [form_sexp(g, names) for g in order]]))
-            impl_cnfs.append((str(f), [[(names.decode_aux(nm), bv) for nm, bv in cl] for cl in cnf]))
+            lines.append(sexp.dumps(["tseitin-hyps", fx, sorted(set(extra)), [form_sexp(g, names) for g in order]]))
+            impl_cnfs.append((str(f), [[(names.decode_aux(nm), bv) for nm, bv in cl] for cl in cnf],
+                              sorted(sexp.dumps(form_sexp(h, names)) for h in pt.hyps)))
         except Exception as e:  # noqa
             ctx.broken("correspondence:c15:tseitin", "cannot read the subterm numbering of %s: %r" % (f, e))
         f_atoms = sorted(atoms_of(f, set()))
@@ -497,8 +499,19 @@ def tseitin_stage(ctx, only=None):
         ctx.broken("correspondence:c15:driver", "model driver unavailable (tseitin)")
         return
     ndis = 0
-    for (fs, icnf), line in zip(impl_cnfs, out):
+    for (fs, icnf, ihyps), line, hline in zip(impl_cnfs, out[0::2], out[1::2]):
         ctx.count("tseitin:cnf-compared")
+        # the whole statement of the theorem: hypotheses x_i <--> ... and the formula
+        try:
+            mh = sorted(set(sexp.dumps(h) for h in sexp.loads(hline)))
+        except Exception:  # noqa
+            mh = hline
+        ctx.count("tseitin:hyps-compared")
+        if mh != ihyps:
+            ndis += 1
+            if ndis <= 3:
+                ctx.broken("correspondence:c15:tseitin-hyps", "formula=%s impl=%s model=%s" % (fs, ihyps, mh))
+                ctx.coverage["disagreements_checked"] += 1
         try:
             m = canon_clauses([[(n_, b_ == "T") for n_, b_ in cl] for cl in sexp.loads(line)])
         except Exception:  # noqa
@@ -841,9 +854,9 @@ def run(ctx):
             ctx.log("Gen.lean regenerated (changed)")
     except Exception as e:  # noqa
         ctx.broken("translate:c15:encode_rules", "untranslatable: %r" % e)
-    proofs_ok = ctx.lean_props(["Holpy.C15.Props"], exes=[EXE])
+    proofs_ok = ctx.lean_props(["Holpy.C15.Props", "Holpy.C15.Props2"], exes=[EXE])
     if ctx.tier == "thorough" and proofs_ok:
-        ctx.lean_check_modules(["Holpy.C15.Props"])
+        ctx.lean_check_modules(["Holpy.C15.Props", "Holpy.C15.Props2"])
     ctx.coverage["trusted_base"] += [
         "correspondence harness harness/props/c15.py (generators, recorded set orders)",
         "translator of library/sat.json encode_* statements to Bool formulas",
